@@ -1,6 +1,6 @@
 --------------------------- MODULE RateLimiterInd ---------------------------
 (* C09, optional unbounded check (Apalache): the token arithmetic of acquirePermission, single  *)
-(* token, for one concrete policy (L, P, T below; rewritten by the driver) but unbounded time,   *)
+(* token, for one concrete policy (L, P, T below; rewritten by the driver) but unbounded time, *)
 (* cycles and history.  IndInv is inductive:  Init => IndInv  and  IndInv /\ Next => IndInv'.    *)
 (* The reservation table of module RateLimiter is, by the refinement invariant RefInv, the       *)
 (* function  Resv(c, tk, k) = Clamp(tk - (k - c) * L, 0, L)  of the implementation state, so     *)
